@@ -165,7 +165,9 @@ def build(dialect):
             gdom[nn] |= 1 << s
 
     start = nid[prods[0].prod[0]]
-    return dict(dialect=dialect, terms=c['terms'], nts=c['nts'], prods=cprods, rows=rows, gdom=gdom,
+    sample_sql = 'select a, b from t where c = 1 and d > 2 order by a limit 5'
+    sample = [tid[tok.type] for tok in lexer.tokenize(sample_sql)]
+    return dict(sample=sample, dialect=dialect, terms=c['terms'], nts=c['nts'], prods=cprods, rows=rows, gdom=gdom,
                 start=start, n_states=n_states,
                 pid={str(k): v for k, v in pid.items()}, sid={str(k): v for k, v in sid.items()},
                 precedence={k: list(v) for k, v in g.Precedence.items()})
@@ -274,6 +276,8 @@ def emit_lean(tb, ns):
     out.append('def prods : Trie Prod := %s' % trie({i: p for i, p in enumerate(tb['prods'])}, emit_prod))
     out.append('def gdom : List Nat := %s' % lean_list([hexn(x) for x in tb['gdom']]))
     out.append('def tables : Tables := ⟨rows, prods, gdom, %d, %d⟩' % (tb['start'], tb['n_states']))
+    out.append('/-- token ids of `select a, b from t where c = 1 and d > 2 order by a limit 5` (non-vacuity witness) -/')
+    out.append('def sample : List Nat := %s' % lean_list([str(x) for x in tb['sample']]))
     out.append('def nTerms : Nat := %d' % len(tb['terms']))
     out.append('def nProds : Nat := %d' % len(tb['prods']))
     out.append('def chunkParams : List (Nat × Nat) := %s' % lean_list(['(%d,%d)' % (a, b) for a, b, _ in subs]))
